@@ -20,6 +20,8 @@ Theorem C07_source_facts :
      dispatcher; every handler's reply action is the one REQUEST2REPLY gives for its name; the error names used by the
      request loop are SECoP error classes *)
   crash_free_table = true /\ alias_not_help = true /\ handlers_match_table = true /\ names_closed = true /\
+  (* the name the identification request is mapped to is itself one of the guarded internal names *)
+  alias_is_internal = true /\
   (* all constants that end up in frames are encodable text without line terminator *)
   consts_good = true.
 Proof. repeat split; reflexivity. Qed.
@@ -28,6 +30,7 @@ Local Definition HT : crash_free_table = true := eq_refl.
 Local Definition HA : alias_not_help = true := eq_refl.
 Local Definition HM : handlers_match_table = true := eq_refl.
 Local Definition HN : names_closed = true := eq_refl.
+Local Definition HI : alias_is_internal = true := eq_refl.
 
 (* any chunking: the state of the connection (buffer, replies sent, handler calls made) after receiving a byte
    stream does not depend on where the stream was cut into segments - at any point of any history *)
@@ -53,8 +56,8 @@ Proof. intros; apply split_lines_spec; apply Nat.lt_succ_diag_r. Qed.
    (events, help text lines) and then exactly ONE reply frame r, consumes one line number, and the reply is
    - (helping) for an empty line or a help request,
    - for a line that decodes to (a, s, d): either error_<a> with specifier s and a report whose class is a SECoP
-     error name, or the reply action REQUEST2REPLY gives for a (the identification reply for the identification
-     request) with the specifier the handler's rule prescribes,
+     error name, or the reply action REQUEST2REPLY gives for a - the identification reply for the identification
+     request *IDN? and for no other action (since the repair bfc762a) - with the specifier the handler's rule prescribes,
    - for an undecodable line: error_<f0> with specifier f1 and class InternalError, f0 f1 being the first fields of
      the STRIPPED raw line read as latin-1 (since the repair b6f37c1; the open finding C07_refuted_latin1_echo lives
      here, C07_decode_error_echo_partial is the positive statement) *)
@@ -68,8 +71,17 @@ Proof.
   intros E st line. destruct (answer_no_crash HT HA E (nline st) line) as [pre [r [c H]]].
   exists pre, r, c. split; [exact H|]. split; [eapply process_output; exact H|].
   split; [apply process_nline|]. split; [apply (process_alive HT HA)|].
-  eapply (answer_classified HM HN); exact H.
+  eapply (answer_classified HM HN HI); exact H.
 Qed.
+
+(* internal handler names are no requests (repair bfc762a; was the finding ident-alias): an action that starts with '_'
+   or is 'request' - other than the identification request itself - is answered error_<action> with the specifier echoed and
+   the class of ProtocolError, and NO handler is called (so '_ident' can no longer reset a connection's subscriptions) *)
+Theorem C07_internal_actions_rejected : forall E i a s d,
+  str_eqb a IDENTREQUEST = false -> is_internal a = true ->
+  dispatch E i (a, s, d) = (OReply [] (err_reply E i a s (error_name_of_class internal_error_class)), None) /\
+  is_internal ident_alias = true /\ is_internal [114; 101; 113; 117; 101; 115; 116] = true.
+Proof. intros; split; [apply internal_rejected; assumption|split; reflexivity]. Qed.
 
 (* a line that decodes carries exactly the action and specifier its error reply echoes *)
 Theorem C07_decoded_request_fields : forall E line a s d,
@@ -141,6 +153,7 @@ Print Assumptions C07_chunking.
 Print Assumptions C07_line_by_line.
 Print Assumptions C07_lines_of_spec.
 Print Assumptions C07_one_reply_per_line.
+Print Assumptions C07_internal_actions_rejected.
 Print Assumptions C07_decoded_request_fields.
 Print Assumptions C07_decode_error_echo_partial.
 Print Assumptions C07_never_terminates.
@@ -148,4 +161,3 @@ Print Assumptions C07_isolation.
 Print Assumptions C07_codec_inverse.
 Print Assumptions C07_lines_wellformed.
 Print Assumptions C07_refuted_latin1_echo.
-Print Assumptions C07_refuted_ident_alias.
